@@ -208,6 +208,7 @@ def tree_strategy():
     names = st.one_of(
         st.sampled_from([n for n in gen.catalogue_names() if n not in ("script", "style")]),
         st.sampled_from(gen.BLOCK_NAMES + gen.INLINE_NAMES),
+        st.sampled_from(gen.RAWISH_NAMES),
         gen.CUSTOM_NAME.filter(lambda n: n.lower() not in ("script", "style")),
     )
     slot = st.builds(lambda v: {"k": "slot", "v": v}, slot_values())
